@@ -283,14 +283,28 @@ func (a *A) ruleAggregatorReset() {
 				}
 			}
 		}
+		// with err == nil assumed (the error result of this GetResults call), does a path still skip Reset?
 		okGuard := false
-		for _, r := range reset {
-			if errV != nil && guardedByValue(r.Block(), func(v ssa.Value) bool {
-				bo, ok := v.(*ssa.BinOp)
-				return ok && bo.Op == token.EQL && bo.X == errV
-			}, true) {
-				okGuard = true
+		if errV != nil {
+			isReset := func(in ssa.Instruction) bool {
+				for _, r := range reset {
+					if in == r {
+						return true
+					}
+				}
+				return false
 			}
+			okGuard = pathToExitAvoidingUnder(g, isReset, func(v ssa.Value) Tri {
+				if bo, ok := v.(*ssa.BinOp); ok && bo.X == errV && isNilConst(bo.Y) {
+					switch bo.Op {
+					case token.EQL:
+						return T
+					case token.NEQ:
+						return F
+					}
+				}
+				return U
+			}) == nil
 		}
 		if !okGuard {
 			a.Bad(fname(pw)+"#reset-after-batch", exit.Pos(), "a path from GetResults to return skips aggregator.Reset(): the next batch would start from this batch's accumulators")
